@@ -1,5 +1,5 @@
 """C01 — forward-port inclusion of destination branches is an invariant: tie and oracle."""
-from . import syscheck
+from . import gittie, syscheck
 
 PID = 'C01'
 TABLES = []
@@ -14,6 +14,8 @@ TRUSTED = [
     'Lean 4 kernel; axioms of every theorem audited (subset of propext, Classical.choice, Quot.sound)',
     'hand-written model lean/BertE/Model/Git.lean + Flow.lean, tied to the code by the differential run of '
     'every event of every history (refs, tip equality classes, ancestry matrix, job outcome)',
+    'harness/gittie.py: the rules of Model/Git + Flow.applyOp exercised directly against bert_e/lib/git.py and '
+    'git_utils (robust_merge, push) on real git: seeded scripts, every step compared',
     'harness/histories.py (history generator, translation of executed events into model events: the stage the '
     'gates allowed and the queue selection are read from the real run), harness/system.py (mock git host, real git)',
 ]
@@ -40,8 +42,16 @@ RULE = ('seeded histories (8-18 events: open PR on any destination, source commi
 
 
 def correspondence(ctx):
-    return syscheck.run_histories(ctx, PID, 160, 4000, RULE)
+    res = syscheck.run_histories(ctx, PID, 160, 4000, RULE)
+    # the model's rules about git itself (merge = up to date / fast-forward / new commit, when the content merge is
+    # consulted), against Bert-E's git layer on real git: harness/gittie.py
+    gittie.run(ctx, res, (24 if ctx.tier == 'quick' else 600) * ctx.scale)
+    return res
 
 
 def replay(ctx, payload):
+    g = gittie.replay_input(payload)
+    if g is not None:
+        from .pipeline import Result
+        return gittie.replay(ctx, Result(), g)
     return syscheck.replay_history(ctx, PID, payload)
